@@ -20,7 +20,7 @@
        (F3), K-root-typename, K-enum-argument, K-nonorderable-variable, K-one-of-max-depth,
        K-fold-count-output-clash, K-schema-duplicate-parameter, and K-output-list-depth (reached in
        IndexedQuery::try_from). *)
-From TF Require Import Values Ty TyProofs QueryAst QueryParse QueryParseProofs SchemaAst SchemaNew IR Front FrontProofs.
+From TF Require Import Values Ty TyProofs QueryAst QueryParse QueryParseProofs SchemaAst SchemaNew IR Front FrontProofs FrontTotal.
 Local Open Scope string_scope.
 Local Open Scope list_scope.
 
@@ -163,6 +163,43 @@ Theorem C10_fill_in_query_variables_total : forall c variables,
 Proof. exact fill_in_query_variables_total. Qed.
 Print Assumptions C10_fill_in_query_variables_total.
 
+(* ================= stage 2, the whole frontend ================= *)
+(* make_ir_for_query never panics: for every schema satisfying schema_ok (root type present, field types
+   builtin scalars or vertex types of <= 30 list levels, defaults of edge parameters checked, root fields
+   are edges, every field has an origin, no type named __typename: what Schema::new establishes, and
+   decidable by schema_okb) and every query produced by parse_document outside the classes
+   known2_strict = K-root-typename, K-fragment-under-property, K-enum-argument, K-double-transform,
+   K-nonorderable-variable, K-one-of-max-depth, K-schema-duplicate-parameter and the widened
+   K-fold-count-output-clash' = "some @fold @transform(count) carries an @output".
+   All 50 Panic sites of Front.v (unwrap/expect/unreachable!/index/assert! of frontend/mod.rs,
+   validation.rs, filters.rs, tags.rs, outputs.rs, util.rs, error.rs) are unreachable there. *)
+Theorem C10_front_total : forall S q,
+  schema_ok S -> wf_query q = true -> known2_strict S q = false -> exists r, front S q = Ok r.
+Proof. exact front_total. Qed.
+Print Assumptions C10_front_total.
+
+(* frontend::parse_doc over documents: parse_document, then make_ir_for_query *)
+Theorem C10_front_doc_total : forall S d,
+  schema_ok S -> known_strict S d = false -> exists r, front_doc S d = Ok r.
+Proof. exact front_doc_total. Qed.
+Print Assumptions C10_front_doc_total.
+
+(* the classes reported by ./check (known) are contained in the classes excluded above *)
+Theorem C10_known_sub_strict : forall S d, known S d = true -> known_strict S d = true.
+Proof. exact known_sub_strict. Qed.
+Print Assumptions C10_known_sub_strict.
+
+(* schema_ok is decidable; the check evaluates schema_okb on every schema it uses *)
+Theorem C10_schema_okb_sound : forall S, schema_okb S = true -> schema_ok S.
+Proof. exact schema_okb_sound. Qed.
+Print Assumptions C10_schema_okb_sound.
+
+(* the construction core on its own: fill_in_vertex_data (with make_fold / make_query_component /
+   make_vertex inside) preserves the handlers' stack discipline and never panics, for every node *)
+Theorem C10_fill_in_vertex_data_total : forall S node, fill_spec S node.
+Proof. exact fill_in_vertex_data_spec. Qed.
+Print Assumptions C10_fill_in_vertex_data_total.
+
 (* ================= non-vacuity ================= *)
 (* `{ Four { value @output } }` parses (not in a class) *)
 Example C10_nonvacuous_parse : ~ Known1 q_simple /\ exists q, parse_doc q_simple = Ok (inr q).
@@ -171,6 +208,7 @@ Print Assumptions C10_nonvacuous_parse.
 (* a query with a filter on a variable, a tag used under an @optional coercion, a @fold whose count is
    filtered: outside every class, compiled to IR and indexed by the model *)
 Example C10_nonvacuous_front :
-  known mini_schema q_rich = false /\ exists ir ix, front_parse mini_schema q_rich = Ok (inr (ir, ix)).
-Proof. exact (conj q_rich_not_known q_rich_compiles). Qed.
+  schema_ok mini_schema /\ known_strict mini_schema q_rich = false /\
+  exists ir ix, front_parse mini_schema q_rich = Ok (inr (ir, ix)).
+Proof. exact (conj mini_schema_ok (conj q_rich_not_known_strict q_rich_compiles)). Qed.
 Print Assumptions C10_nonvacuous_front.
